@@ -8,7 +8,7 @@ import vlib
 from props import fam_sf as F
 
 
-MANIFEST = {'technique': 'Coq proof (table well-formedness by vm_compute, f" >= 0 over R) + bit-exact purity oracle (array/scalar/order/threads, TSan in thorough) + pole/edge scans on gemmi', 'text': 'Theorems over the orbital table regenerated from /repo: index table contiguous, nparm consistent with the data present, energies positive/descending and equal to the Gauss nodes the branch uses, >= 3 usable points per orbital (the seeded Ce row is reported by this theorem); f" >= 0 for the real-number model of the f" sum (_partial: f\' quadrature not modelled). Oracles on gemmi: cromer_liberman_for_array = per-energy calls bit-exactly in any order and from 1-16 threads, Z outside 3..92 leaves outputs untouched, finite values, f" >= 0, jumps only at tabulated edges on a dense log grid 1-80 keV plus brackets of every edge and of every computed sigma-pole energy, documentation values reproduced. Five spurious f\' poles caused by inconsistent table energies are recorded as KNOWN FINDINGS (not repairable without the reference data).', 'note': 'Trusted: Coq kernel + vm_compute; Reals axioms for the f" theorem; translator gen/dump_fprime.cpp; extraction; harness. Purity across threads is a runtime fact: tested bit-exactly, not proved.'}
+MANIFEST = {'technique': 'Coq proof (table well-formedness by vm_compute, f" >= 0 over R) + bit-exact purity oracle (array/scalar/order/threads, TSan in thorough) + pole/edge scans on gemmi', 'text': 'Theorems over the orbital table regenerated from /repo: index table contiguous, nparm consistent with the data present, energies positive/descending and equal to the Gauss nodes the branch uses, >= 3 usable points per orbital (the seeded Ce row is reported by this theorem); f" >= 0 for the real-number model of the f" sum (_partial: f\' quadrature not modelled). Oracles on gemmi: cromer_liberman_for_array = per-energy calls bit-exactly in any order and from 1-16 threads, Z outside 3..92 leaves outputs untouched, finite values, f" >= 0, jumps only at tabulated edges on a dense log grid 1-80 keV plus brackets of every edge and of every computed sigma-pole energy, documentation values reproduced; f-prime and f-double-prime of every element at 12 energies compared (1e-6) with a reference tabulation frozen from the repaired snapshot (detects changes of value; it does not validate the snapshot). Five spurious f\' poles caused by inconsistent table energies are recorded as KNOWN FINDINGS (not repairable without the reference data).', 'note': 'Trusted: Coq kernel + vm_compute; Reals axioms for the f" theorem; translator gen/dump_fprime.cpp; extraction; harness. Purity across threads is a runtime fact: tested bit-exactly, not proved.'}
 
 def exact_edge_energy(binden):
     """an energy (eV) for which 0.001*E is exactly the float binden, so that cromer() sees bena == energa
@@ -111,6 +111,24 @@ def run(chk):
             chk.case(p[0] + ' ' + p[1], p[2] not in ('EXC', 'skip'),
                      sample={'cmd': p[0], 'args': p[1][:200], 'impl': p[2][:200]} if chk.evaluations % 499 == 0 else None,
                      bucket=p[0])
+    # the reference tabulation: f', f'' frozen from the repaired snapshot (gen/golden/fprime_golden.tsv), 1e-6
+    gold = [l.split('\t') for l in open(vlib.ROOT + '/gen/golden/fprime_golden.tsv').read().splitlines() if l and l[0] != '#']
+    glines = ['cl\t%s %s' % (g[0], g[1]) for g in gold]
+    rc, gout, gerr = vlib.run_lines(h, [], inp=('\n'.join(glines) + '\n').encode(), timeout=600)
+    if rc != 0 or len(gout) != len(gold):
+        chk.violate('crash', 'C17 harness failed on the reference energies', gerr[-1500:], found_input=False)
+    else:
+        nbad = 0
+        for g, l in zip(gold, gout):
+            fp, fpp = [float(x) for x in l.split('\t')[2].split()]
+            rfp, rfpp = float(g[2]), float(g[3])
+            ok = abs(fp - rfp) <= 1e-6 * (1 + abs(rfp)) and abs(fpp - rfpp) <= 1e-6 * (1 + abs(rfpp))
+            chk.case('gold %s %s' % (g[0], g[1]), True, bucket='reference' if ok else 'reference:DIFF')
+            if not ok:
+                nbad += 1
+                if nbad <= 3:
+                    chk.violate('oracle', "C17 reference tabulation: Z=%s E=%s eV gives f'=%r f''=%r, reference %s %s" % (g[0], g[1], fp, fpp, g[2], g[3]),
+                                'frozen reference values gen/golden/fprime_golden.tsv', replay={'harness': 'h_sf', 'line': 'cl\t%s %s' % (g[0], g[1])})
     for (cmd, args, impl, model) in res['mismatches']:
         chk.violate('correspondence', 'sf-model disagrees with gemmi on command ' + cmd,
                     'input=%s impl=%s model=%s' % (args, impl[:300], model[:300]),
